@@ -210,7 +210,7 @@ func c04Run(t *testing.T, s *sim.Scn) *sim.Outcome {
 }
 
 func c04Gen(r *rand.Rand, tier string) *sim.Scn {
-	if r.IntN(8) == 0 || os.Getenv("VERIF_C04_WHOLE_ONLY") != "" {
+	if (r.IntN(8) == 0 && os.Getenv("VERIF_NO_WHOLE") == "") || os.Getenv("VERIF_C04_WHOLE_ONLY") != "" {
 		return c04WholeGen(r, tier)
 	}
 	s := &sim.Scn{Cfg: map[string]int64{"ih": 1, "depth": 2, "queue": 0}}
